@@ -152,6 +152,26 @@ def run(ctx):
     int_flux_formula(ctx, prog, prog.module("source_finder"), rule="C01-R7")
     # ---------------------------------------------------------------- R9
     r9(ctx, prog)
+    # ------------------------------------------------------------ frame rule
+    ctx.rule("C01-R10", "fitting works on copies: no in-place write (masking with "
+             "NaN, -=, fill) goes through a view of the shared image / "
+             "noise / background arrays -- otherwise the pixels blanked for "
+             "one island are missing for every island processed later, and "
+             "which sources are measured depends on the processing order")
+    from ..core import view_writes
+    nvw = 0
+    for short in ['source_finder.SourceFinder._fit_island', 'source_finder.SourceFinder.result_to_components', 'source_finder.SourceFinder.find_sources_in_image', 'source_finder.SourceFinder.estimate_lmfit_parinfo']:
+        if not prog.has_func(short):
+            continue
+        fi_ = prog.func(short)
+        nvw += 1
+        vw = view_writes(fi_.node)
+        ctx.check("C01-R10", fi_, "no write through a view of the shared arrays "
+                  "in " + fi_.name, not vw,
+                  "%s writes into %s, a view of %s (no copy in between)" %
+                  ((norm(vw[0][0], 60), vw[0][1], vw[0][2]) if vw
+                   else ("", "", "")), node=vw[0][0] if vw else fi_.node)
+    ctx.floor("C01-R10", nvw, 2, "fitting functions examined for view writes")
     # ---------------------------------------------------------------- R8
     ctx.rule("C01-R8", "one peak, one component: every pixel-mask "
              "segmentation reachable from blind finding (islands AND the "
